@@ -169,6 +169,8 @@ namespace occa {
                            const hash_t &hash);
 
   hash_t hash(const void *ptr, udim_t bytes);
+  hash_t hash(const char *c);
+  hash_t hash(const std::string &str);
 
   template <class T>
   inline hash_t hash(const std::vector<T> &vec) {
@@ -192,8 +194,6 @@ namespace occa {
   template <>
   hash_t hash_t::operator ^ (const hash_t &hash) const;
 
-  hash_t hash(const char *c);
-  hash_t hash(const std::string &str);
   hash_t hashFile(const std::string &filename);
 }
 
